@@ -39,4 +39,20 @@ ParsePrefix(buf) == ParseFrom(buf, 0, <<>>)
 Entries(buf) == ParsePrefix(buf)[1]
 Consumed(buf) == ParsePrefix(buf)[2]
 Remainder(buf) == SubSeq(buf, Consumed(buf) + 1, Len(buf))
+
+\* ---- linear-time checker used on long recorded streams -----------------------------------
+\* Accepts exactly when `entries` are the entries of ParsePrefix(buf); returns the bytes consumed.
+\* (Equivalence with ParsePrefix is an invariant of the exhaustive model, MC_CbFifo!CheckerAgrees.)
+RECURSIVE SkipBlocks(_, _)
+SkipBlocks(buf, p) == IF p + 4 <= Len(buf) /\ IsHdr(buf, p) /\ p + ScalerLen <= Len(buf)
+                      THEN SkipBlocks(buf, p + ScalerLen) ELSE p
+IsEntryAt(buf, p) == p + 4 <= Len(buf) /\ (IsTs(buf, p) \/ IsMk(buf, p))
+MatchStep(buf, st, e) ==
+  IF ~st[2] THEN st
+  ELSE LET p == SkipBlocks(buf, st[1]) IN
+       IF IsEntryAt(buf, p) /\ Entry(buf, p) = e THEN <<p + 4, TRUE>> ELSE <<p, FALSE>>
+Match(buf, entries) ==
+  LET st == FoldLeft(LAMBDA a, e : MatchStep(buf, a, e), <<0, TRUE>>, entries)
+      p == SkipBlocks(buf, st[1])
+  IN [ok |-> st[2] /\ ~IsEntryAt(buf, p), consumed |-> p]
 =============================================================================
